@@ -13,6 +13,7 @@ pub mod c07;
 pub mod c10;
 pub mod c11;
 pub mod c14;
+pub mod c15;
 pub mod c17;
 pub mod c18;
 pub mod c19;
@@ -33,6 +34,7 @@ pub const ALL: &[Property] = &[
     Property { id: "C10", run: c10::run, replay: c10::replay },
     Property { id: "C11", run: c11::run, replay: c11::replay },
     Property { id: "C14", run: c14::run, replay: c14::replay },
+    Property { id: "C15", run: c15::run, replay: c15::replay },
     Property { id: "C17", run: c17::run, replay: c17::replay },
     Property { id: "C18", run: c18::run, replay: c18::replay },
     Property { id: "C19", run: c19::run, replay: c19::replay },
